@@ -50,7 +50,15 @@ func genCase(t *rapid.T) Case {
 				names = append(names, path.Base(nd.Path))
 			}
 		}
+		// a blank pattern is ignored by the library wherever it stands: the other patterns of the set still protect
+		blankAt := -1
+		if n > 0 && rapid.IntRange(0, 3).Draw(t, "blank") == 0 {
+			blankAt = rapid.IntRange(0, n).Draw(t, "blank-at")
+		}
 		for i := 0; i < n; i++ {
+			if i == blankAt {
+				c.Patterns = append(c.Patterns, rapid.SampledFrom([]string{"", " "}).Draw(t, "blank-pattern"))
+			}
 			if len(names) > 0 && rapid.IntRange(0, 3).Draw(t, fmt.Sprintf("pat-from-tree%d", i)) > 0 {
 				c.Patterns = append(c.Patterns, regexp.QuoteMeta(names[rapid.IntRange(0, len(names)-1).Draw(t, fmt.Sprintf("pat%d", i))]))
 			} else {
@@ -193,6 +201,9 @@ func checkCase(t ev.T, test string, c Case) {
 	if len(c.Patterns) > 0 {
 		var res []*regexp.Regexp
 		for _, p := range c.Patterns {
+			if strings.TrimSpace(p) == "" {
+				continue
+			}
 			res = append(res, regexp.MustCompile("^(?:"+p+")$"))
 		}
 		for rel := range before {
@@ -233,7 +244,10 @@ func replayCase(t ev.T, raw json.RawMessage) {
 	checkCase(t, "TestRemoval", c)
 }
 
-func init() { ev.RegisterReplay("TestRemoval", replayCase) }
+func init() {
+	ev.RegisterReplay("TestRemoval", replayCase)
+	ev.RegisterReplay("TestWideDirectories", replayCase)
+}
 
 func TestReplay(t *testing.T)      { ev.RunReplay(t) }
 func TestRegressions(t *testing.T) { ev.Regressions(t, prop) }
@@ -264,4 +278,31 @@ func TestRemoval(t *testing.T) {
 		}
 		checkCase(rt, "TestRemoval", c)
 	})
+}
+
+// TestWideDirectories: "for every fan-out". A directory far wider than any batch size a listing may use (1 500 entries, at
+// the root of the tree and two levels down) through every entry point without patterns, on both backends.
+func TestWideDirectories(t *testing.T) {
+	var n int64
+	for _, backend := range []string{"os", "mem"} {
+		for _, entry := range []string{"Rm", "RemoveWithContext", "RemoveWithPrivileges", "CleanDir", "CleanDirWithContext", "RemoveWithContextAndExclusionPatterns", "CleanDirWithContextAndExclusionPatterns"} {
+			for _, where := range []string{"", "a/b/"} {
+				c := Case{Backend: backend, Entry: entry}
+				if where != "" {
+					c.Tree = append(c.Tree, treegen.Node{Path: "a", Kind: "dir"}, treegen.Node{Path: "a/b", Kind: "dir"})
+				}
+				for i := 0; i < 1500; i++ {
+					nd := treegen.Node{Path: fmt.Sprintf("%sf%04d", where, i), Kind: "file", Content: treegen.Content{Len: 1, Seed: uint64(i), Kind: 1}}
+					if i%250 == 0 {
+						nd = treegen.Node{Path: fmt.Sprintf("%sd%04d", where, i), Kind: "dir"}
+					}
+					c.Tree = append(c.Tree, nd)
+				}
+				checkCase(t, "TestWideDirectories", c)
+				n++
+			}
+		}
+	}
+	ev.Bulk(n, n, "wide-directories")
+	ev.Exhaustive("a 1 500-entry directory (root of the tree, and two levels down) x 7 entry points x 2 backends")
 }
